@@ -1213,8 +1213,9 @@ impl UnifiedCommandExecutor {
                 let ttl = self.storage.ttl(db, &key)?;
                 match ttl {
                     Some(duration) => {
+                        // Whole seconds, rounded up, as the direct command answers
                         let secs = duration.as_secs() as i64;
-                        Ok(RespFrame::Integer(if secs == 0 && duration.subsec_millis() > 0 { 1 } else { secs }))
+                        Ok(RespFrame::Integer(if duration.subsec_nanos() > 0 { secs + 1 } else { secs }))
                     }
                     None => {
                         if self.storage.exists(db, &key)? {
